@@ -69,7 +69,7 @@ def vkey(f, clause):
 def strip_case(c):
     """what TLC needs of a session record"""
     def ev(e):
-        return {"ev": e["ev"], "f": e["f"], "args": e["args"], "cfg": e["cfg"], "raised": e["raised"],
+        return {"ev": e["ev"], "f": e["f"], "args": e["args"], "cfg": e["cfg"], "fam": e.get("fam", "std"), "raised": e["raised"],
                 "new": e.get("new", []), "objs": e["objs"], "res": e["res"], "store": e.get("store", [])}
     return {"init": c["init"], "events": [ev(e) for e in c["events"]]}
 
@@ -99,16 +99,20 @@ def pick_quick(cfgs, seed, meta):
     for c in cfgs:
         key = (c["dtype"], c["layout"])
         if key == ("float64", "C"):
+            # value family "non-finite": NaN, +inf and -inf cells in EVERY raster input of EVERY function (same JIT
+            # specialisations as the all-finite raster: no extra compilation); `res` is a string there (attrs family 4 / 1)
+            sel.append(dict(c, nonfinite=True, single_chunk=(c["backend"] == "dask"),
+                            attrs_family=4 if c["backend"] == "numpy" else 1))
             # on Dask this all-finite raster is a SINGLE chunk (chunks=-1): special cases for npartitions == 1; the other
             # Dask rasters of the tier (NaN-bearing float64 where taken, float32, int32) have 2 x 2 chunks
-            sel.append(dict(c, finite=True, single_chunk=(c["backend"] == "dask")))
-            if meta[c["f"]]["nan_inputs"]:
-                sel.append(dict(c))
+            # attrs family: `res` a scalar on NumPy, a pair of NumPy scalars on Dask
+            sel.append(dict(c, finite=True, single_chunk=(c["backend"] == "dask"),
+                            attrs_family=1 if c["backend"] == "numpy" else 5))
         elif key == ("int32", "C") and ((c["backend"] == "numpy" and c["f"] not in same_code) or c["f"] not in heavy):
-            sel.append(dict(c))
+            sel.append(dict(c, attrs_family=3 if c["backend"] == "numpy" else 4))      # `res` a 3-tuple / a string
         elif key == ("float32", "C") and c["f"] not in heavy:
-            # float32 on Dask too: dask's astype('f4') returns the array itself there
-            sel.append(dict(c))
+            # float32 on Dask too: dask's astype('f4') returns the array itself there; `res` a list
+            sel.append(dict(c, attrs_family=2))
         elif c["backend"] == "numpy" and key == extra and c["f"] not in heavy:
             sel.append(dict(c))
     return sel, extra
@@ -120,7 +124,8 @@ def config_jobs(cfgs, variants=None):
         jobs.append({"sid": i, "tag": "config", "cfgrec": c,
                      "calls": [{"f": c["f"], "variant": (variants or {}).get(c["f"], 0) if not isinstance(variants, int) else variants,
                                 "args": None, "dtype": c["dtype"], "layout": c["layout"], "backend": c["backend"],
-                                "finite": bool(c.get("finite")), "single_chunk": bool(c.get("single_chunk"))}]})
+                                "finite": bool(c.get("finite")), "single_chunk": bool(c.get("single_chunk")),
+                                "nonfinite": bool(c.get("nonfinite")), "attrs_family": int(c.get("attrs_family", 0))}]})
     return jobs
 
 
@@ -325,11 +330,18 @@ def replay_part(ctx, rng, focus):
         sel = allcfgs + [dict(c, finite=True) for c in allcfgs if c["layout"] == "C" and c["dtype"] in ("float32", "float64")]
         # single-chunk Dask rasters (chunks=-1) for every function and dtype on the C layout
         sel += [dict(c, single_chunk=True) for c in allcfgs if c["layout"] == "C" and c["backend"] == "dask"]
+        # the non-finite value family (NaN, +inf, -inf in every raster input) for every function on the float C rasters
+        sel += [dict(c, nonfinite=True) for c in allcfgs if c["layout"] == "C" and c["dtype"] in ("float32", "float64")]
+        # attrs families (`res` as tuple / scalar / list / 3-tuple / string / NumPy scalars) rotate over the dtypes
+        dts = ["float64", "float32", "int32", "int8", "int16", "int64", "uint8", "uint16", "uint32", "uint64"]
+        sel = [dict(c, attrs_family=(dts.index(c["dtype"]) + (3 if c.get("finite") else 0) + (1 if c.get("nonfinite") else 0)) % 6)
+               for c in sel]
         extra = None
     else:
         sel, extra = pick_quick(allcfgs, ctx.seed, meta)
-        ctx.note("quick tier: every function on float64/C all-finite (single chunk on dask; + NaN-bearing where it takes NaN) "
-                 "on both backends and on int32/C on numpy; without the ten JIT-heavy functions: "
+        ctx.note("quick tier: every function on float64/C all-finite (single chunk on dask) and on float64/C with NaN, +inf, "
+                 "-inf cells on both backends, and on int32/C on numpy; attrs['res'] as scalar / list / 3-tuple / string / "
+                 "NumPy scalars across the sweeps; without the ten JIT-heavy functions: "
                  "float32/C and int32/C (multi-chunk) on dask, float32/C and seeded %s on numpy" % (extra,))
     jobs = config_jobs(sel)
     ncfg = len(jobs)
